@@ -31,6 +31,9 @@ theorem K_noDup {d0 d : Dir} (h0 : NoDupSem d0) (k : K d0 d) : NoDupSem d := by
     obtain ⟨g0, hs⟩ := k.shard b rs g
     rw [effective_congr d d0 b rs hs]; exact h0.2 b rs g0
 
+/-- what every recorded state must satisfy -/
+def Gd (d : Dir) : Prop := noDupVis d = true
+
 theorem K_G {d0 d : Dir} (h0 : NoDupSem d0) (k : K d0 d) : noDupVis d = true :=
   noDupVis_of_sem d k.wf (K_noDup h0 k)
 
